@@ -10,6 +10,11 @@ Definition oz_eqb (a b : option Z) : bool :=
 Definition ozz_eqb (a b : option (Z * Z)) : bool :=
   match a, b with Some (x, y), Some (u, v) => (x =? u) && (y =? v) | None, None => true | _, _ => false end.
 
+(* AreaDefinition.__init__: pixel_size_x, pixel_size_y, pixel_upper_left, pixel_offset_x, pixel_offset_y *)
+Definition chk_attrs (c : area float * list float) : bool :=
+  let '(a, obs) := c in
+  list_eqb same_bits [pixel_size_x F64 a; pixel_size_y F64 a; upl_x F64 a; upl_y F64 a; pixel_offset_x F64 a; pixel_offset_y F64 a] obs.
+
 (* get_proj_vectors / projection_x_coords / projection_y_coords *)
 Definition chk_vectors (c : area float * list float * list float) : bool :=
   let '(a, xs, ys) := c in
